@@ -59,7 +59,10 @@ def gen_lru(rng, weird=None, maxpath=3, long_ok=True):
             stems.append(b"h:" + rng.choice(SUBS))
     for _ in range(rng.randint(0, maxpath)):
         if rng.random() < weird:
-            stems.append(b"p:" + weird_payload(rng, long_ok))
+            if rng.random() < 0.12:
+                stems.append(b"")                       # the one-byte stem "|" (an empty path component: "...||")
+            else:
+                stems.append(b"p:" + weird_payload(rng, long_ok))
         else:
             stems.append(b"p:" + rng.choice(PATHS))
     if rng.random() < 0.1:
